@@ -153,7 +153,7 @@ func (e *c14Env) attempt(proto, query string, k int) (out c14Outcome, detail str
 			return c14Refused, "publish handshake failed: " + err.Error()
 		}
 		defer pub.Close()
-		addr := pub.RC.Conn.LocalAddr().String()
+		addr := srv.Key(pub.RC.Conn)
 		ok := srv.WaitFor(2*time.Second, func() bool {
 			_, st := s.Notify.WaitSessionFrom(0, from, "pub_start", addr)
 			return st || pub.PeerClosed()
@@ -176,7 +176,7 @@ func (e *c14Env) attempt(proto, query string, k int) (out c14Outcome, detail str
 			return c14Refused, err.Error()
 		}
 		defer sub.Close()
-		addr := sub.RC.Conn.LocalAddr().String()
+		addr := srv.Key(sub.RC.Conn)
 		srv.WaitFor(2*time.Second, func() bool {
 			_, st := s.Notify.WaitSessionFrom(0, from, "sub_start", addr)
 			return st || sub.Hist.IsClosed()
@@ -560,21 +560,21 @@ func c14Kick(c *fw.Ctx) {
 			if err != nil {
 				return "", nil, nil, err
 			}
-			return x.RC.Conn.LocalAddr().String(), x.Hist.IsClosed, x.Close, nil
+			return srv.Key(x.RC.Conn), x.Hist.IsClosed, x.Close, nil
 		}, "sub_start"},
 		{"flv-sub", func() (string, func() bool, func(), error) {
 			x, err := srv.StartHttpSub(s.HttpAddr(), "/live/"+bg+".flv", "flv", 3*time.Second)
 			if err != nil {
 				return "", nil, nil, err
 			}
-			return x.Conn.LocalAddr().String(), x.Closed, x.Close, nil
+			return srv.Key(x.Conn), x.Closed, x.Close, nil
 		}, "sub_start"},
 		{"ts-sub", func() (string, func() bool, func(), error) {
 			x, err := srv.StartHttpSub(s.HttpAddr(), "/live/"+bg+".ts", "ts", 3*time.Second)
 			if err != nil {
 				return "", nil, nil, err
 			}
-			return x.Conn.LocalAddr().String(), x.Closed, x.Close, nil
+			return srv.Key(x.Conn), x.Closed, x.Close, nil
 		}, "sub_start"},
 		{"rtsp-sub", func() (string, func() bool, func(), error) {
 			x, err := ref.DialRtsp(s.RtspAddr(), 3*time.Second)
@@ -585,14 +585,14 @@ func c14Kick(c *fw.Ctx) {
 				x.Close()
 				return "", nil, nil, err
 			}
-			return x.Conn.LocalAddr().String(), x.Closed, x.Close, nil
+			return srv.Key(x.Conn), x.Closed, x.Close, nil
 		}, "sub_start"},
 		{"rtmp-pub", func() (string, func() bool, func(), error) {
 			x, err := ref.StartRtmpPublisher(s.RtmpAddr(), "live", bg+"_kp", 3*time.Second)
 			if err != nil {
 				return "", nil, nil, err
 			}
-			return x.RC.Conn.LocalAddr().String(), x.PeerClosed, x.Close, nil
+			return srv.Key(x.RC.Conn), x.PeerClosed, x.Close, nil
 		}, "pub_start"},
 		{"rtsp-pub", func() (string, func() bool, func(), error) {
 			x, err := ref.DialRtsp(s.RtspAddr(), 3*time.Second)
@@ -603,7 +603,7 @@ func c14Kick(c *fw.Ctx) {
 				x.Close()
 				return "", nil, nil, err
 			}
-			return x.Conn.LocalAddr().String(), x.Closed, x.Close, nil
+			return srv.Key(x.Conn), x.Closed, x.Close, nil
 		}, "pub_start"},
 	}
 	for _, v := range vs {
